@@ -44,18 +44,20 @@ def dilationOf : Option Nat → Nat | none => 1 | some d => d
 
 /-- PyTorch: output channel `o` of `O` belongs to group `o / (O/groups)` and reads that group's `C/groups` input channels -/
 def grpSpec (O g : Nat) (o : Nat) : Nat := o / (O / g)
+/-- the code (layout `(O/g, g)` of `conv_reshape_weight`): group `o % groups` -/
+def grpCode (g : Nat) (o : Nat) : Nat := o % g
 
-/-- nested-loop conv1d, one output element (`Cg = C/groups` input channels per group):
-    `out[n,o,l] = bias[o] + Σ_{c < Cg} Σ_{k < K} xpad[n, grp(o)·Cg + c, l·s + k·d] · w[o,c,k]` -/
-def conv1dLoop (x w : Arr Int) (bias : Option (Arr Int)) (O g L Cg K s p d : Nat) (n o l : Nat) : Int :=
-  sumTo Cg (fun c => sumTo K (fun k => padRead x L p n (grpSpec O g o * Cg + c) (l * s + k * d) * w.get [o, c, k]))
+/-- nested-loop conv1d, one output element (`Cg = C/groups` input channels per group, `grp o` the group of output
+    channel `o`): `out[n,o,l] = bias[o] + Σ_{c < Cg} Σ_{k < K} xpad[n, grp(o)·Cg + c, l·s + k·d] · w[o,c,k]` -/
+def conv1dLoop (grp : Nat → Nat) (x w : Arr Int) (bias : Option (Arr Int)) (L Cg K s p d : Nat) (n o l : Nat) : Int :=
+  sumTo Cg (fun c => sumTo K (fun k => padRead x L p n (grp o * Cg + c) (l * s + k * d) * w.get [o, c, k]))
     + (match bias with | none => 0 | some b => b.get [o])
 
 /-- nested-loop conv2d, one output element, per-plane stride `(sH,sW)`, padding `(pH,pW)`, dilation `(dH,dW)`:
     `out[n,o,i,j] = bias[o] + Σ_c Σ_kh Σ_kw xpad[n, grp(o)·Cg + c, i·sH + kh·dH, j·sW + kw·dW] · w[o,c,kh,kw]` -/
-def conv2dLoop (x w : Arr Int) (bias : Option (Arr Int)) (O g H W Cg KH KW sH sW pH pW dH dW : Nat) (n o i j : Nat) : Int :=
+def conv2dLoop (grp : Nat → Nat) (x w : Arr Int) (bias : Option (Arr Int)) (H W Cg KH KW sH sW pH pW dH dW : Nat) (n o i j : Nat) : Int :=
   sumTo Cg (fun c => sumTo KH (fun kh => sumTo KW (fun kw =>
-      padRead2 x H W pH pW n (grpSpec O g o * Cg + c) (i * sH + kh * dH) (j * sW + kw * dW) * w.get [o, c, kh, kw])))
+      padRead2 x H W pH pW n (grp o * Cg + c) (i * sH + kh * dH) (j * sW + kw * dW) * w.get [o, c, kh, kw])))
     + (match bias with | none => 0 | some b => b.get [o])
 
 end NmVerif.NN
